@@ -183,9 +183,9 @@ func checkTorn(t ev.T, test string, c TornCase) (skipped string) {
 // TestTornTransfer: every crash point of the transfer on a grid of byte offsets x {first store of the key, second} x cache kind.
 func TestTornTransfer(t *testing.T) {
 	shard, shards := ev.Shard()
-	stride := int64(173)
+	stride := int64(89)
 	if ev.Thorough() {
-		stride = 11
+		stride = 1 // every byte offset
 	}
 	var n, nt int64
 	i := 0
